@@ -65,6 +65,22 @@ CHECKS = {
              'end-to-end runs. "No partial output after a late failure" is not claimed.',
         technique='AST-generated verification conditions over the real source with z3 string/regex theory; trace obligations against callee contracts; bounded native end-to-end replay',
         design_ref='Part III C20'),
+    'C17': dict(
+        category='proof',
+        text='format_time_units_for_ems (real body) is executed for every UTC offset T in [-720, 840] minutes (symbolic, '
+             'split into 7 ranges) and every civil epoch with year 1..9999: it never raises, the produced text has the '
+             'form <unit> since YYYY-MM-DD HH:MM:SS <sign>HH:MM (decided on the digit skeleton of the constructed string), '
+             'and re-reading it with the CF grammar gives the same civil fields and the same offset, hence the same '
+             'instant. fix_time_units_for_ems rewrites exactly the units attribute of the named variable; '
+             'disable_default_fill_value / to_netcdf_with_fixes: decision table over dtype kinds x fill-value placement '
+             '(incl. falsy fill values), suppression lands in the written copy, caller dataset untouched; '
+             'Convention.to_netcdf / time_coordinate. netCDF write/reopen identity is a bounded native stand-in.',
+        note=TRUST + 'Assumed: CF-PARSE-TZ / CF-DATESPLIT / CF-NUM2PYDATE (cftime grammar, validated natively against cftime on '
+             '279 strings every run), DT-STRFTIME, DT-ASTIMEZONE, PYTZ-FIXEDOFFSET, XR-MAYBE-PROMOTE, XR-COPY-SHALLOW, '
+             'netCDF4 attribute access; civil time as an uninterpreted function (equal fields give equal instants); '
+             'IO-NETCDF-ROUNDTRIP stated only.',
+        technique='AST-generated verification conditions over the real source (integer arithmetic on structurally tracked formatted strings), z3; exhaustive native run over all 1561 offsets',
+        design_ref='Part III C17'),
 }
 
 NOT_YET = 'check not built yet (work in progress, see DESIGN.md)'
